@@ -134,6 +134,52 @@ fn codec_part<V: Variant>(ctx: &mut Ctx, tier: Tier, base: &(Vec<i64>, Vec<i64>,
     part.exhaustive = true;
     t.into_part(ctx, part);
 
+    // runs of zero coefficients: length x start (a word-at-a-time packer treats an all-zero word specially)
+    let mut jobs: Vec<(usize, usize, usize)> = vec![];
+    for poly in 0..3usize {
+        for k in (1..=24usize).chain([32, 40, 64]) {
+            let mut starts: Vec<usize> = (0..=9).chain([15, 16, 17, 23, 24, n / 2 - 1, n / 2, n / 2 + 1, n - k]).collect();
+            starts.sort();
+            starts.dedup();
+            for p in starts {
+                if p + k <= n {
+                    jobs.push((poly, p, k));
+                }
+            }
+        }
+    }
+    let roots = crate::refmodel::poly::roots(n);
+    let t = jobs
+        .par_iter()
+        .map(|&(poly, p, k)| {
+            let mut t = Tally::default();
+            let (mut f, mut g, mut cf) = base.clone();
+            let v = match poly {
+                0 => &mut f,
+                1 => &mut g,
+                _ => &mut cf,
+            };
+            for x in v[p..p + k].iter_mut() {
+                *x = 0;
+            }
+            // keep the neighbours non-zero so that the run has exactly this length
+            if p > 0 && v[p - 1] == 0 {
+                v[p - 1] = 1;
+            }
+            if p + k < n && v[p + k] == 0 {
+                v[p + k] = -1;
+            }
+            if crate::refmodel::poly::eval_at_roots(&f, &roots).iter().any(|&x| x == 0) {
+                return t; // f not invertible: outside the property
+            }
+            sk_field_case::<V>(&mut t, &f, &g, &cf, &format!("zero-run:poly{}", poly));
+            t
+        })
+        .reduce(Tally::default, reduce);
+    let mut part = Part::new(&format!("sk_zero_runs_{}", n), "a run of k zero coefficients (k in 1..=24, 32, 40, 64) starting at p in {0..9, 15, 16, 17, 23, 24, n/2-1, n/2, n/2+1, n-k} in f, g or F of a real key: reference-encoded, decoded by from_bytes, re-encoded byte for byte");
+    part.exhaustive = true;
+    t.into_part(ctx, part);
+
     // public key: every value at 4 positions, extremes everywhere
     let (_sk, pk) = crate::api::key::<V>(0);
     let h0: Vec<i64> = V::pk_h(&pk).iter().map(|&x| x as i64).collect();
